@@ -16,17 +16,18 @@ def write_zmx(p):
     """p: dict(mode, ap=(kind,value), ftype, tele, fields_y, fields_x, wls, prim (1-based), surfs=[...], fmt, gcat)"""
     f = p.get('fmt', 'g')
     L = []
-    L.append('VERS 190513 80 123457 L123457')
-    L.append('MODE %s' % p.get('mode', 'SEQ'))
-    L.append('NAME generated')
-    L.append('UNIT MM X W X CM MR CPMM')
     kind, val = p['ap']
-    if kind == 'ENPD':
-        L.append('ENPD %s' % num(val, f))
-    elif kind == 'FNUM':
-        L.append('FNUM %s 0' % num(val, f))
-    elif kind == 'OBNA':
-        L.append('OBNA %s 0' % num(val, f))
+    apline = {'ENPD': 'ENPD %s', 'FNUM': 'FNUM %s 0', 'OBNA': 'OBNA %s 0'}[kind] % num(val, f)
+    # the records of the header in the order Zemax writes them ('vers'), or - the text format has no required order and
+    # no required VERS/NAME record - starting directly with a record that matters
+    head = p.get('head', 'vers')
+    if head == 'mode_first':
+        L += ['MODE %s' % p.get('mode', 'SEQ'), 'UNIT MM X W X CM MR CPMM', apline]
+    elif head == 'ap_first':
+        L += [apline, 'MODE %s' % p.get('mode', 'SEQ'), 'NAME generated', 'UNIT MM X W X CM MR CPMM']
+    else:
+        L += ['VERS 190513 80 123457 L123457', 'MODE %s' % p.get('mode', 'SEQ'), 'NAME generated',
+              'UNIT MM X W X CM MR CPMM', apline]
     if p.get('gcat'):
         L.append('GCAT %s' % ' '.join(p['gcat']))
     nf = len(p['fields_y'])
